@@ -925,6 +925,11 @@ def freeze(v):
     return bytes(v)
 
 
+def has_buf(descs):
+    return any(f["t"] == "buf" or (f["t"] == "env" and has_buf(f["fields"])) or (f["t"] == "seq" and has_buf(f["item"]))
+               for f in descs)
+
+
 def has_nested(descs):
     return any(f["t"] in ("env", "seq") for f in descs)
 
@@ -1023,6 +1028,7 @@ class Judge:
             raise HarnessError("ill-formed program generated: %r" % (self.prog,))
         self.descs = descs
         self.nested = has_nested(descs)
+        self.has_buf = has_buf(descs)
         self.struct_kind = "flat" if not self.nested else (self.prog[1] if self.prog[0] == "alias" else self.prog[0])
         C = env()["codec"]
         cls = make_env_class(descs)
@@ -1103,6 +1109,8 @@ class Judge:
         # the caller's input buffer is reused: decode from a bytearray, keep the values, refill the bytearray in
         # place (next datagram, then zeros): the values must not change and must still re-encode to b1
         try:
+            if not self.has_buf:
+                raise StopIteration()            # no buffer-valued field: nothing could share memory with the input
             buf = bytearray(b1)
             E.from_bytes(buf)
             kept = dict(E.c)
@@ -1114,6 +1122,8 @@ class Judge:
             if not changed:
                 E.c = kept
                 again = bytes(E.to_bytes())
+        except StopIteration:
+            pass
         except Exception as ex:
             self.viol("aliasing:input-buffer-raises-" + type(ex).__name__, self.struct_kind,
                       "from_bytes(bytearray %s), refill of the bytearray, re-encode: raised %s" % (b1.hex(), root_cause(ex)))
